@@ -18,7 +18,7 @@ pub enum Unit {
     Text { slot: usize, first: usize, max_frags: usize },
 }
 
-pub const FRAGS: [&str; 20] = [".x", "'x", "\\fB", "\\", "-", "<zz>", "</dd>", "&", ">", "\n.", "\n'", "\n ", "\n\n", "[x](y)", "`", "*", "_", "#", "é", "word"];
+pub const FRAGS: [&str; 22] = ["\n    ", "\n\n```\n", ".x", "'x", "\\fB", "\\", "-", "<zz>", "</dd>", "&", ">", "\n.", "\n'", "\n ", "\n\n", "[x](y)", "`", "*", "_", "#", "é", "word"];
 pub const SLOTS: usize = 8;
 
 pub fn slot_def(slot: usize, text: &str) -> (Opts, String) {
@@ -434,7 +434,7 @@ impl Check for C16 {
         }
     }
     fn rule(&self) -> String {
-        "(1) structure: the C12 definition family (ordered tuples of <=2, thorough 3, of 15 documented field kinds x 6 tails incl. nested and hidden commands): render_markdown / render_html / render_manpage return, contain exactly one section per reachable command level, each section mentions every visible flag/argument/command name of that level and no hidden or alias name; (2) text: 8 text slots (item help, descr, header+footer, group title, positional help, command help + inner descr, metavariable, application name) with EVERY concatenation of <=3 (thorough 4) fragments from 20 roff/HTML/markdown metacharacter fragments (.x 'x \\fB \\ - <zz> </dd> & > newline+. newline+' newline+space blank-line [x](y) ` * _ # é word): HTML scanned by an independent tag lexer (only the renderer's own tags, perfectly nested, no raw < or > from user text), manpage scanned by an independent roff lexer (every line starting with . or ' is one of .TH .SH .SS .TP .PP .nf .fi .ie .el; only the escapes \\fB \\fI \\fR \\fP \\- \\\\ \\& \\*(Aq '\\ '; decoding gives the help lines back); evaluation = one rendered document".into()
+        "(1) structure: the C12 definition family (ordered tuples of <=2, thorough 3, of 15 documented field kinds x 6 tails incl. nested and hidden commands): render_markdown / render_html / render_manpage return, contain exactly one section per reachable command level, each section mentions every visible flag/argument/command name of that level and no hidden or alias name; (2) text: 8 text slots (item help, descr, header+footer, group title, positional help, command help + inner descr, metavariable, application name) with EVERY concatenation of <=3 (thorough 4) fragments from 22 roff/HTML/markdown metacharacter fragments (code-line start, fence start, .x 'x \\fB \\ - <zz> </dd> & > newline+. newline+' newline+space blank-line [x](y) ` * _ # é word): HTML scanned by an independent tag lexer (only the renderer's own tags, perfectly nested, no raw < or > from user text), manpage scanned by an independent roff lexer (every line starting with . or ' is one of .TH .SH .SS .TP .PP .nf .fi .ie .el; only the escapes \\fB \\fI \\fR \\fP \\- \\\\ \\& \\*(Aq '\\ '; decoding gives the help lines back); evaluation = one rendered document".into()
     }
     fn bounds(&self, tier: Tier) -> Value {
         json!({"fragments_per_string": tier.pick(3, 4), "slots": 8, "structure_fields": tier.pick(2, 3)})
